@@ -368,6 +368,11 @@ pub fn run_socket_part(ev: &mut Evidence, seed: u64, runs: usize, scratch: &std:
     let mut rng = Rng::new(seed ^ 0x50c);
     let mut stats = RunStats { events: 0, schedules: HashSet::new(), late_after_unsubscribe: 0 };
     for run in 0..runs {
+        // a violation is a verdict already; repeated watchdog expiries mean the workload cannot tell any more
+        if !ev.violations.is_empty() || ev.counter("socket_runs_inconclusive") >= 4 {
+            ev.count("socket_runs_skipped_after_verdict_or_watchdogs", 1);
+            continue;
+        }
         let mut witness = vec![];
         let mut attempt = 0;
         loop {
